@@ -291,6 +291,16 @@ def binding_programs(thorough):
          "def entry(x, y):\n    return C().g(x) + y\n", {"inheritance", "self-call"}),
         ("class B:\n    def f(self, a):\n        return a + 1\nclass C(B):\n    def f(self, a):\n        return a + 100\n"
          "def entry(x, y):\n    return C().f(x) + B().f(y)\n", {"override"}),
+        ("def entry(x, y):\n    t = x\n    def inner():\n        t = y + 10\n        return t\n    r = inner()\n    return (t, r)\n", {"nested-shadows-local"}),
+        ("def entry(x, y):\n    def inner(x):\n        x = x + 5\n        return x\n    r = inner(y)\n    return (x, r)\n", {"nested-shadows-param"}),
+        ("def entry(x, y):\n    t = x\n    def a():\n        t = 1\n        return t\n    def b():\n        return t\n    return (a(), b(), t)\n", {"nested-shadows-local", "sibling-closure"}),
+        ("g = 3\ndef setlocal(v):\n    g = v\n    return g\ndef readg():\n    return g\ndef entry(x, y):\n    a = setlocal(9)\n    return (a, readg(), g)\n", {"local-shadows-global", "global-read-after"}),
+        ("def helper(o, k):\n    return o.v + k\nclass A:\n    def __init__(self, v):\n        self.v = v\n    def run(self):\n        return helper(self, 2)\n"
+         "    def give(self, other):\n        return other.absorb(self)\n    def absorb(self, o):\n        return o.v * 2\n    def clone(self):\n        return A(self.v + 1)\n"
+         "    def wrap(self):\n        return W(self)\nclass W:\n    def __init__(self, inner):\n        self.inner = inner\n"
+         "def entry(x, y):\n    a = A(x)\n    b = A(y)\n    return (a.run(), a.give(b), a.clone().v, a.wrap().inner.v)\n", {"self-as-argument"}),
+        ("class A:\n    def __init__(self, v):\n        self.v = v\n    def me(self):\n        return self\n    def pair(self):\n        return [self, self.v]\n"
+         "def entry(x, y):\n    a = A(x)\n    return (a.me().v, a.pair()[1], a.pair()[0].v)\n", {"self-returned", "self-in-display"}),
         ("def entry(x, y):\n    l = [x, y]\n    m = l\n    m[0] = 9\n    return l\n", {"alias-list"}),
         ("def entry(x, y):\n    d = {'a': x}\n    e = d\n    e['b'] = y\n    return d\n", {"alias-dict"}),
         ("def entry(x, y):\n    l = [1, 2, 3]\n    l[x] += y\n    return l\n", {"aug-subscript"}),
